@@ -180,6 +180,38 @@ macro_rules! ans_impl {
                             out.push(if res.is_ok() { 0 } else { ERR_IMPOSSIBLE });
                         }
                     }
+                    17 => {
+                        // exhaustive single-step sweep: for every state s in [lo, hi) and every entry
+                        // of model m: coder = from_raw_parts(bulk, s) with bulk = [0xA5] if s is at
+                        // or above the threshold (documented invariant) else []; encode the entry's
+                        // symbol, then decode it again. Results are folded into a checksum per call.
+                        let m = &models[r.us()];
+                        let lo = r.u();
+                        let hi = r.u();
+                        let thr: u64 = 1u64 << (<$S>::BITS - <$W>::BITS);
+                        let mut acc: u64 = 0;
+                        let mut mix = |x: u64| { acc = (acc.wrapping_mul(1000003) ^ x) & 0x1FFF_FFFF_FFFF_FFFF; };
+                        for s in lo..hi {
+                            for e in &m.t {
+                                let bulk: Vec<$W> = if s >= thr { vec![0xA5u8 as $W] } else { vec![] };
+                                let mut c2: AnsCoder<$W, $S, Vec<$W>> = AnsCoder::from_raw_parts(bulk, s as $S);
+                                let res = with_p!($Pr, m.p, $plist, |tm| c2.encode_symbol(e.0, tm), &m.t);
+                                mix(res.is_ok() as u64);
+                                {
+                                    let (b, st) = c2.clone().into_raw_parts();
+                                    mix(b.len() as u64);
+                                    for w in &b { mix(*w as u64); }
+                                    mix(st as u64);
+                                }
+                                let d = with_p!($Pr, m.p, $plist, |tm| c2.decode_symbol(tm), &m.t).unwrap();
+                                mix(d as u64);
+                                let (b, st) = c2.into_raw_parts();
+                                mix(b.len() as u64);
+                                mix(st as u64);
+                            }
+                        }
+                        out.push(acc as Int);
+                    }
                     other => panic!("harness: unknown ans op {}", other),
                 }
             }
